@@ -1562,8 +1562,12 @@ class DataFieldRecordArray(
             raise TypeError(
                 'The arr argument must be an instance of DataFieldRecordArray!')
 
-        for fname in self._field_name_list:
-            self._data_fields[fname][indices] = arr[fname]
+        # Get all the field arrays first, so no data has been written in case
+        # ``arr`` misses one of the data fields.
+        arr_data_fields = [arr[fname] for fname in self._field_name_list]
+
+        for (fname, arr_data) in zip(self._field_name_list, arr_data_fields):
+            self._data_fields[fname][indices] = arr_data
 
     def rename_fields(
             self,
